@@ -328,7 +328,13 @@ func checkClone(c *Ctx, in input, tree *ast.Tree, r *rec, before string, fail fa
 		fail("clone-panic-"+strings.ToLower(kind), in, map[string]any{"panic": firstLine(m)})
 		return
 	}
-	r2 := serialize(cl, &serializer{ids: newIDs()})
+	var r2 *rec
+	if m := PanicText(func() { r2 = serialize(cl, &serializer{ids: newIDs()}) }); m != "" {
+		// the copy is not even a well-formed tree (nil elements, foreign values)
+		kind := smallestPanic(r, func(n ast.Node) { serialize(astutil.CloneNode(n), &serializer{ids: newIDs()}) })
+		fail("clone-differs-"+strings.ToLower(kind)+"-malformed", in, map[string]any{"why": firstLine(m)})
+		return
+	}
 	if after := serialize(tree, &serializer{ids: newIDs()}).String(); after != before {
 		fail("clone-changes-original", in, nil)
 		return
@@ -376,7 +382,11 @@ func checkClone(c *Ctx, in input, tree *ast.Tree, r *rec, before string, fail fa
 				return
 			}
 			xr := serialize(x.node, &serializer{ids: newIDs()})
-			yr := serialize(y, &serializer{ids: newIDs()})
+			var yr *rec
+			if m := PanicText(func() { yr = serialize(y, &serializer{ids: newIDs()}) }); m != "" {
+				fail("clone-differs-"+strings.ToLower(x.kind)+"-malformed", in, map[string]any{"why": firstLine(m), "root": x.kind})
+				return
+			}
 			if where := firstDifference(xr, yr); where != "" {
 				fail("clone-differs-"+strings.ToLower(where), in, map[string]any{"root": x.kind})
 			}
